@@ -4,9 +4,11 @@ from vc.api import (harness, contract, repo, outcome, assume, new_object, proper
 from spec import framing_spec
 from spec import F
 
-property_level("C16", "other", "the chunk-independence of the three framers is a whole-history property over unbounded "
-               "byte streams; it is covered by bounded native enumeration (labelled bounded), only the forwarding clause "
-               "of NetSource.handle_messages is discharged deductively")
+property_level("C16", "other", "chunk independence is a whole-history property over unbounded byte streams.  Deductive: the AVR "
+               "raw framer is shown to be a fold of a per-byte transition with all state in (current_msg, msg_stop) - "
+               "transition for every state and byte value, loop composition for 2-3 bytes, the fold-associativity step "
+               "itself argued - and the forwarding clause of NetSource.handle_messages; the Beast and Skysense framers "
+               "(look-ahead over the whole buffer) are covered by bounded native enumeration only")
 
 TCP = repo("pyModeS.extra.tcpclient")
 SRC = repo("pyModeS.streamer.source")
@@ -221,3 +223,63 @@ def netsource_forwards_each_message_once(m1, m2, m3, m4, split):
     assert src.raw_pipe_in.sent == want_sent, "objects sent on the pipe carry every long DF17/18 and DF20/21 message once, in order"
     assert src.local_buffer_adsb_msg == want_adsb and src.local_buffer_commb_msg == want_commb, \
         "messages not yet sent are still waiting in the local buffers (none lost)"
+
+
+# ------------------------------------------------------------------------------------------------------------
+# AVR raw framer, deductively: read_raw_buffer is a fold of framing_spec.raw_step over the bytes of the buffer,
+# with all of its state in (current_msg, msg_stop).  For a fold, feeding a stream in pieces is the same as feeding
+# it whole - that last step (associativity of folds) is the meta-argument; the obligations below are (1) the
+# per-byte transition for every state and every byte value, (2) the loop composes transitions and keeps no other
+# state (buffers of 2 and 3 arbitrary bytes), (3) nothing but (current_msg, msg_stop, buffer) is written.
+def _raw_client(cur, stop, buf):
+    return new_object(TCP.TcpClient, buffer=buf, datatype="raw", current_msg=cur, msg_stop=stop, host="h", port=0,
+                      socket=None, raw_pipe_in=None, stop_flag=False, exception_queue=None)
+
+
+@harness("C16", inputs={"cur": HexStr((0, 1, 13, 14, 27, 28, 30)), "stop": Choice(False, True), "b": IntRange(0, 255)},
+         functions=[T + "read_raw_buffer"], body_of=[T + "read_raw_buffer"])
+def raw_step_lemma(cur, stop, b):
+    c = _raw_client(cur, stop, [b])
+    out = c.read_raw_buffer()
+    e, cur2, stop2 = framing_spec.raw_step(cur, stop, b)
+    if e is None:
+        assert len(out) == 0, "a byte other than ';' emits nothing"
+    else:
+        assert len(out) == 1 and out[0][0] == e, "';' emits the text assembled so far, once"
+    assert c.current_msg == cur2 and c.msg_stop == stop2, "framer state after one byte == raw_step(state, byte)"
+    assert c.buffer == [], "the consumed byte is removed from the buffer"
+
+
+@harness("C16", inputs={"cur": HexStr((0, 13, 28)), "stop": Choice(False, True), "b1": IntRange(0, 255),
+                         "b2": IntRange(0, 255), "b3": IntRange(0, 255), "n": Choice(2, 3)},
+         functions=[T + "read_raw_buffer"], body_of=[T + "read_raw_buffer"])
+def raw_loop_composes_steps(cur, stop, b1, b2, b3, n):
+    buf = [b1, b2] if n == 2 else [b1, b2, b3]
+    c = _raw_client(cur, stop, list(buf))
+    out = c.read_raw_buffer()
+    want, cur2, stop2 = framing_spec.raw_fold(buf, cur, stop)
+    assert [m[0] for m in out] == want, "messages of one read == fold of raw_step over its bytes, in order"
+    assert c.current_msg == cur2 and c.msg_stop == stop2 and c.buffer == [], "state after the read == state of the fold"
+    # the same bytes one at a time, carrying the state in the object only
+    c2 = _raw_client(cur, stop, [])
+    got = []
+    for b in buf:
+        c2.buffer.extend([b])
+        got.extend(m[0] for m in c2.read_raw_buffer())
+    assert got == want and c2.current_msg == cur2 and c2.msg_stop == stop2, \
+        "feeding the bytes one read at a time gives the same messages and state (chunk independence, 2-3 bytes)"
+
+
+class _Seed(Stream):
+    def sample(self, rng):
+        return rng.randint(0, 10 ** 9)
+
+
+@harness("C16", inputs={"seed": _Seed()}, kind="bounded", functions=[T + "read_raw_buffer"],
+         note="spec-level lemma: on well-formed '*<hex>;' streams (with CR/LF or nothing between frames) the fold of "
+              "raw_step from the initial state emits exactly parse_raw(stream)")
+def raw_fold_is_parse(seed):
+    import random
+    rng = random.Random(seed)
+    stream = raw_stream(rng)
+    assert framing_spec.raw_fold(stream)[0] == framing_spec.parse_raw(stream), "fold of raw_step == reference parser"
